@@ -35,8 +35,18 @@ def outcome? (c : Char) : Option Outcome :=
   else if c = 'T' ∨ c = 't' then some .timeout
   else none
 
-def op? (c : Char) : Option Op :=
-  if c = 'c' then some .call else if c = 'd' ∨ c = 'g' then some .die else none
+/-- `c` plain call; `z` zero deadline; `n`/`s`/`l` a 1 ns / short / long deadline (in virtual time
+the answer of a reachable peer comes first: an ordinary call); `i`/`j` unary / server-streaming
+call that is in flight when the peer drops the connection; `d`/`g` the peer drops the connection.
+`zeroAll`: `Endpoint::timeout(0)` makes every call a zero-deadline call. -/
+def opZ? (zeroAll : Bool) (c : Char) : Option Op :=
+  if c = 'd' ∨ c = 'g' then some .die
+  else if c = 'z' then some .callZero
+  else if c = 'c' ∨ c = 'n' ∨ c = 's' ∨ c = 'l' then some (if zeroAll then .callZero else .call)
+  else if c = 'i' ∨ c = 'j' then some (if zeroAll then .callZero else .callDie)
+  else none
+
+def op? (c : Char) : Option Op := opZ? false c
 
 def b01 (b : Bool) : String := if b then "1" else "0"
 
@@ -154,6 +164,8 @@ def evTok : Ev → String
   | .call .hang a => s!"c:hang:a{a}"
   | .call .panic a => s!"c:panic:a{a}"
   | .call .garbled a => s!"c:garbled:a{a}"
+  | .call .expired a => s!"c:exp:a{a}"
+  | .call (.lost c) a => s!"c:lost{c}:a{a}"
 
 def parseF (s : String) : Option (Option Nat) :=
   if s = "f?" then some none else (natAfter "f" s).map some
@@ -178,7 +190,10 @@ def parseEv (t : String) : Option Ev :=
         if what = "hang" then some (.call .hang a)
         else if what = "panic" then some (.call .panic a)
         else if what = "garbled" then some (.call .garbled a)
-        else (natAfter "resp" what).map fun c => .call (.resp c) a
+        else if what = "exp" then some (.call .expired a)
+        else match natAfter "lost" what with
+          | some c => some (.call (.lost c) a)
+          | none => (natAfter "resp" what).map fun c => .call (.resp c) a
     | ["c", e, f, a] =>
       match natAfter "err" e, parseF f, natAfter "a" a with
       | some code, some att, some a => some (.call (.error code att) a)
@@ -361,6 +376,18 @@ def handle (case obs : List String) : String × String :=
               (es.map fun (c, _, w) => Spec.Reconnect.classClauses w c).flatten)
       (model, v)
     | _, _ => bad
+  | ["e2d", m, et, outsS, opsS] =>
+    if et ≠ "-" ∧ et ≠ "z" ∧ et ≠ "n" ∧ et ≠ "s" ∧ et ≠ "l" then bad else
+    match mode? m, parseAll (fun s => (s.toList.head?).bind outcome?) ((chars outsS).map (String.singleton ·)),
+          parseAll (fun s => (s.toList.head?).bind (opZ? (et = "z"))) ((chars opsS).map (String.singleton ·)) with
+    | some isLazy, some outs, some ops =>
+      let t := E2E.run true isLazy outs ops
+      let model := String.intercalate " " (buildTok t :: t.evs.map evTok)
+      let v := match parseTrace obs with
+        | some ot => verdict (Spec.Reconnect.clauses isLazy outs ops ot)
+        | none => "fail:unparsable-observation"
+      (model, v)
+    | _, _, _ => bad
   | [kind, m, outsS, opsS] =>
     if kind ≠ "e2e" ∧ kind ≠ "e2n" then bad else
     match mode? m, parseAll (fun s => (s.toList.head?).bind outcome?) ((chars outsS).map (String.singleton ·)),
